@@ -56,6 +56,18 @@ def main(argv=None):
             with open(a.replay) as fh:
                 rep = json.load(fh)
             mod.replay(ctx, rep)
+            # the single case did not reproduce: the violation may depend on
+            # the history of calls before it -- re-run the whole (seeded,
+            # deterministic) shard that observed it, stopping at the first
+            # unexplained violation
+            if rep.get('nshards') and rep.get('shard') is not None and \
+                    rep.get('tier'):
+                ctx.shard = int(rep['shard'])
+                ctx.nshards = int(rep['nshards'])
+                ctx.tier = rep['tier']
+                ctx.quick = ctx.tier == 'quick'
+                ctx.seed = int(rep.get('seed', ctx.seed))
+                mod.run(ctx)
         else:
             mod.run(ctx)
     except mon.PostBroken as e:
